@@ -42,18 +42,25 @@ func c10r1(c *an.Ctx) {
 	ue := c.Fn("drpcwire", "UnmarshalError")
 	code := a.obj("drpcerr", "Code")
 	withCode := a.obj("drpcerr", "WithCode")
-	// encoder
+	// encoder: either a [8]byte filled with BigEndian.PutUint64 and extended by append, or
+	// BigEndian.AppendUint64 onto an empty slice extended by append
 	var put *ssa.Call
+	appendForm := false
 	an.Instrs(me, func(in ssa.Instruction) {
 		if call, ok := in.(*ssa.Call); ok {
-			if obj := an.CalleeObj(call.Common()); obj != nil && obj.Name() == "PutUint64" && strings.Contains(obj.FullName(), "bigEndian") {
-				put = call
+			if obj := an.CalleeObj(call.Common()); obj != nil && strings.Contains(obj.FullName(), "bigEndian") {
+				switch obj.Name() {
+				case "PutUint64":
+					put = call
+				case "AppendUint64":
+					put, appendForm = call, true
+				}
 			}
 		}
 	})
 	okEnc := false
 	var arr ssa.Value
-	if put != nil {
+	if put != nil && !appendForm {
 		if sl, ok := put.Common().Args[1].(*ssa.Slice); ok {
 			if al, ok := sl.X.(*ssa.Alloc); ok {
 				if at, ok := deref(al.Type()).Underlying().(*types.Array); ok && at.Len() == 8 {
@@ -65,14 +72,35 @@ func c10r1(c *an.Ctx) {
 			okEnc = arr != nil
 		}
 	}
+	if put != nil && appendForm {
+		base := put.Common().Args[1]
+		emptyBase := an.IsNilConst(base)
+		if sl, ok := base.(*ssa.Slice); ok && sl.High != nil {
+			if k, isK := an.ConstInt(sl.High); isK && k == 0 {
+				emptyBase = true
+			}
+		}
+		if cc, ok := put.Common().Args[2].(*ssa.Call); ok && an.IsCallTo(cc.Common(), code) && cc.Common().Args[0] == ssa.Value(me.Params[0]) {
+			okEnc = emptyBase
+		}
+	}
 	c.Check(okEnc, "MarshalError | 8-byte big-endian drpcerr.Code(err) into a [8]byte", c.P.Pos(me.Pos()), "", "the error's code is not encoded as 8 big-endian bytes of drpcerr.Code of the same error")
 	okTxt := false
 	for _, ret := range an.Returns(me) {
 		if call, ok := ret.Results[0].(*ssa.Call); ok {
 			if b, isB := call.Common().Value.(*ssa.Builtin); isB && b.Name() == "append" {
-				base, isSl := call.Common().Args[0].(*ssa.Slice)
 				txt, isCall := call.Common().Args[1].(*ssa.Call)
-				if isSl && base.X == arr && base.Low == nil && base.High == nil && isCall && txt.Common().IsInvoke() && txt.Common().Method.Name() == "Error" && txt.Common().Value == ssa.Value(me.Params[0]) && put != nil && an.InstrDominates(put, call) {
+				if !isCall || !txt.Common().IsInvoke() || txt.Common().Method.Name() != "Error" || txt.Common().Value != ssa.Value(me.Params[0]) || put == nil {
+					continue
+				}
+				if appendForm {
+					if an.Resolve(call.Common().Args[0]) == ssa.Value(put) {
+						okTxt = true
+					}
+					continue
+				}
+				base, isSl := call.Common().Args[0].(*ssa.Slice)
+				if isSl && base.X == arr && base.Low == nil && base.High == nil && an.InstrDominates(put, call) {
 					okTxt = true
 				}
 			}
